@@ -159,9 +159,62 @@ Theorem C06_frame_is_ring_length : forall s0 s1,
   match OscModel.message_ring_length (RingOsc.ring2 s0 s1) with OscModel.Ok L => L | _ => 0 end.
 Proof. exact RingOsc.osc_frame_is_ring_length. Qed.
 
-(* FIFO for real OSC messages: no abstract hypothesis left *)
-Theorem C06_fifo_osc : forall N MM, 0 < N ->
+(* FIFO for real OSC messages.  PARTIAL: osc_wf (Ring/RingOsc.v) admits only
+   well-formed NON-BUNDLE messages - a script with a bundle anywhere, also a
+   lone one, does not satisfy script_ok osc_wf.  The side condition "no bundles"
+   contains the class of finding bundle-not-last; the part of it that is not the
+   finding (a bundle as the LAST message of the script) is
+   C06_fifo_osc_bundle_last below.  Full statement: the same for every script of
+   well-formed OSC messages and bundles - false of the code
+   (C06_bundle_not_last_refuted). *)
+Theorem C06_fifo_osc_partial : forall N MM, 0 < N ->
   forall ws rs sched, script_ok RingOsc.osc_wf ws ->
   let s := reach N MM RingOsc.osc_frame ws rs sched in
   nreads (out s) = firstn (length (nreads (out s))) (accs_of (out s)).
 Proof. exact (fun N MM HN => top_fifo N MM RingOsc.osc_frame RingOsc.osc_wf HN RingOsc.osc_frame_ok). Qed.
+
+(* the hypothesis is satisfiable by a non-empty script of real messages, and
+   the run (OSC framing, ring of 32 bytes, third message wrapped) returns them *)
+From RtoscV Require Ring.RingOscExamples Ring.RingLast.
+
+Theorem C06_fifo_osc_nonvacuous :
+  script_ok RingOsc.osc_wf RingOscExamples.osc_ws /\ RingOscExamples.osc_ws <> [] /\
+  nreads (out (reach 32 16 RingOsc.osc_frame RingOscExamples.osc_ws RingOscExamples.osc_rs
+                     RingOscExamples.osc_sched))
+    = [RingOscExamples.oscA; RingOscExamples.oscB; RingOscExamples.oscA] /\
+  accs_of (out (reach 32 16 RingOsc.osc_frame RingOscExamples.osc_ws RingOscExamples.osc_rs
+                      RingOscExamples.osc_sched))
+    = [RingOscExamples.oscA; RingOscExamples.oscB; RingOscExamples.oscA].
+Proof. exact RingOscExamples.fifo_osc_nonvacuous. Qed.
+
+(* the complement of the finding class: every message a well-formed OSC message
+   or a well-formed bundle, every message of the script but the LAST one a
+   non-bundle.  FIFO, lookahead, hasNext and memory safety hold for every
+   schedule (the last bundle is framed by C08's length theorem: nothing follows
+   it in the reader's view). *)
+Theorem C06_fifo_osc_bundle_last : forall N MM, 0 < N ->
+  forall ws rs sched, script_ok RingLast.osc_or_bundle ws ->
+  Forall RingOsc.osc_wf (removelast (map wmsg ws)) ->
+  let s := reach N MM RingOsc.osc_frame ws rs sched in
+  nreads (out s) = firstn (length (nreads (out s))) (accs_of (out s)) /\
+  reads_ok (accs_of (out s)) (out s) O O /\ Forall has_ok (out s) /\ err s = false.
+Proof. exact RingLast.fifo_osc_bundle_last. Qed.
+
+Theorem C06_bundle_last_nonvacuous :
+  script_ok RingLast.osc_or_bundle RingLast.last_ws /\
+  Forall RingOsc.osc_wf (removelast (map wmsg RingLast.last_ws)) /\
+  RingFrame.is_bundle (wmsg (last RingLast.last_ws (WRaw []))) = true /\
+  nreads (out (reach 64 32 RingOsc.osc_frame RingLast.last_ws RingOscExamples.osc_rs RingLast.last_sched))
+    = [RingOscExamples.oscA; RingOscExamples.oscB; RingLast.bunB].
+Proof. exact RingLast.bundle_last_nonvacuous. Qed.
+
+(* known finding bundle-not-last on the model: raw_write(bundle), raw_write(message),
+   four guarded reads - every read returns nothing, the read index stays 0, the
+   reads are not a prefix of the accepted messages *)
+Theorem C06_bundle_not_last_refuted :
+  script_ok RingLast.osc_or_bundle RingLast.wedge_ws /\
+  accs_of (out RingLast.wedge_state) = [RingLast.bunB; RingOscExamples.oscB] /\
+  nreads (out RingLast.wedge_state) = [[]; []; []; []] /\
+  ir RingLast.wedge_state = 0 /\ iw RingLast.wedge_state = 36 /\
+  nreads (out RingLast.wedge_state) <> firstn 4 (accs_of (out RingLast.wedge_state)).
+Proof. exact RingLast.bundle_not_last_refuted. Qed.
